@@ -3,7 +3,7 @@
 Scratch copy of /repo (outside /repo and /verif), patch applied, demo on base and patched, checks via MIROS_REPO."""
 import os, shutil, subprocess, sys, tempfile, json
 args = [a for a in sys.argv[1:] if not a.startswith('--')]
-mdir, props = args[0], args[1:]
+mdir, props = os.path.abspath(args[0]), args[1:]
 suite = '--suite' in sys.argv
 d = tempfile.mkdtemp(prefix='seed_', dir='/tmp')
 res = {'mutant': mdir}
